@@ -9,6 +9,16 @@ Theorem C08_counter_range : forall n c, counter_ok c -> (0 <= counter_iter (S n)
 Proof. exact counter_range. Qed.
 Print Assumptions C08_counter_range.
 
+(* non-vacuity: the fresh counter (-1), a mid-range value and the last value before the wrap-around are admissible *)
+Example C08_counter_range_nonvacuous :
+  counter_ok (-1)%Z /\ counter_ok 123456%Z /\ counter_ok 999999%Z /\
+  (0 <= counter_iter 5 999998%Z <= 999999)%Z /\ counter_iter 5 999998%Z = 3%Z.
+Proof.
+  assert (H : counter_ok 999998%Z) by (unfold counter_ok; split; discriminate).
+  refine (conj _ (conj _ (conj _ (conj (C08_counter_range 4 _ H) _))));
+    [unfold counter_ok; split; discriminate .. | vm_compute; reflexivity].
+Qed.
+
 (* ids handed out within one operation are pairwise distinct, also across the wrap-around, as long as fewer
    than 10^6 are drawn: so placeholder entries never collide, whatever value the counter started from *)
 Theorem C08_ids_distinct : forall c n m, counter_ok c -> (n < m)%nat -> (m - n < 1000000)%nat ->
@@ -16,11 +26,30 @@ Theorem C08_ids_distinct : forall c n m, counter_ok c -> (n < m)%nat -> (m - n <
 Proof. exact counter_distinct. Qed.
 Print Assumptions C08_ids_distinct.
 
+(* non-vacuity: the 1st and the 6th id drawn from 999997 lie on different sides of the wrap-around *)
+Example C08_ids_distinct_nonvacuous :
+  counter_ok 999997%Z /\ (0 < 5)%nat /\ (5 - 0 < 1000000)%nat /\
+  counter_iter 1 999997%Z = 999998%Z /\ counter_iter 6 999997%Z = 3%Z /\
+  counter_iter 1 999997%Z <> counter_iter 6 999997%Z.
+Proof.
+  assert (H1 : counter_ok 999997%Z) by (unfold counter_ok; split; discriminate).
+  assert (H2 : (0 < 5)%nat) by (apply PeanoNat.Nat.ltb_lt; reflexivity).
+  assert (H3 : (5 - 0 < 1000000)%nat) by (apply PeanoNat.Nat.ltb_lt; vm_compute; reflexivity).
+  refine (conj H1 (conj H2 (conj H3 (conj _ (conj _ (C08_ids_distinct _ 0 5 H1 H2 H3)))))); vm_compute; reflexivity.
+Qed.
+
 (* the k-th id after a start value is that value plus k modulo 10^6 *)
 Theorem C08_counter_closed_form : forall n c, counter_ok c ->
   counter_iter (S n) c = ((c + 1 + Z.of_nat n) mod 1000000)%Z.
 Proof. exact counter_closed_form. Qed.
 Print Assumptions C08_counter_closed_form.
+
+Example C08_counter_closed_form_nonvacuous :
+  counter_ok (-1)%Z /\ counter_iter 8 (-1)%Z = ((-1 + 1 + Z.of_nat 7) mod 1000000)%Z /\ counter_iter 8 (-1)%Z = 7%Z.
+Proof.
+  assert (H : counter_ok (-1)%Z) by (unfold counter_ok; split; discriminate).
+  refine (conj H (conj (C08_counter_closed_form 7 _ H) _)). vm_compute. reflexivity.
+Qed.
 
 Example C08_wrap : counter_iter 3 999998%Z = 1%Z /\ counter_ok 999998%Z.
 Proof. split; [vm_compute; reflexivity | unfold counter_ok; split; discriminate]. Qed.
